@@ -1347,6 +1347,15 @@ def migration45(tdset):
     add_column('_grist_Cells', 'resolved', 'Bool'),
   ]
 
+  def to_seconds(millis):
+    # Convert milliseconds to seconds for DateTime columns; anything but a finite number is unset.
+    if isinstance(millis, bool) or not isinstance(millis, (int, float)):
+      return 0
+    try:
+      return int(millis / 1000)
+    except (OverflowError, ValueError):
+      return 0
+
   # Migrate existing data from JSON content to new columns
   cells = list(actions.transpose_bulk_action(tdset.all_tables['_grist_Cells']))
 
@@ -1366,9 +1375,8 @@ def migration45(tdset):
       time_created = content.get('timeCreated')
       time_updated = content.get('timeUpdated')
 
-      # Convert milliseconds to seconds for DateTime columns
-      time_created_values.append(int(time_created / 1000) if time_created is not None else 0)
-      time_updated_values.append(int(time_updated / 1000) if time_updated is not None else 0)
+      time_created_values.append(to_seconds(time_created))
+      time_updated_values.append(to_seconds(time_updated))
       resolved_values.append(bool(content.get('resolved', False)))
 
       # Remove these fields from JSON content if they exist
